@@ -312,3 +312,119 @@ def r_decode(repo, tier):
         if len(uses) < 2:
             out.report(f.file, f.dqual, "instruction bytes", fn.lineno, "the instruction's bytes are not set from the matched slice %s on both the new-instruction and the pending-prefix path" % bs)
     return out
+
+
+# ======================================================================================= field width vs register table length
+def _table_len(v):
+    """static length of a module-level table expression: list/tuple literal, [.. for x in range(..)], [..]*N"""
+    if isinstance(v, (ast.List, ast.Tuple)) and not any(isinstance(e, ast.Starred) for e in v.elts):
+        return len(v.elts)
+    if isinstance(v, ast.ListComp) and len(v.generators) == 1 and not v.generators[0].ifs:
+        it = v.generators[0].iter
+        if isinstance(it, ast.Call) and isinstance(it.func, ast.Name) and it.func.id == "range" and all(isinstance(a, ast.Constant) and isinstance(a.value, int) for a in it.args) and not it.keywords:
+            return len(range(*[a.value for a in it.args]))
+        if isinstance(it, (ast.List, ast.Tuple)):
+            return len(it.elts)
+        if isinstance(it, ast.Constant) and isinstance(it.value, str):
+            return len(it.value)
+    if isinstance(v, ast.BinOp) and isinstance(v.op, ast.Mult):
+        for a, b in ((v.left, v.right), (v.right, v.left)):
+            if isinstance(a, (ast.List, ast.Tuple)) and isinstance(b, ast.Constant) and isinstance(b.value, int):
+                return len(a.elts) * b.value
+    return None
+
+
+def _resolve_table(repo, mod, expr):
+    """(defining module, name, length) for `env.X` / `X` when X is a module-level table that is assigned once and never
+    grown (no X.append / X += / X[..] = anywhere in its module)"""
+    if isinstance(expr, ast.Attribute) and isinstance(expr.value, ast.Name):
+        r = repo.lookup(mod.name, expr.value.id)
+        if not r or r[0] is None or r[1][0] != "module":
+            return None
+        tm, name = r[0], expr.attr
+    elif isinstance(expr, ast.Name):
+        tm, name = mod, expr.id
+    else:
+        return None
+    r = repo.lookup(tm.name, name)
+    if not r or r[0] is None or r[1][0] != "assign":
+        return None
+    dm = r[0]
+    assigns = [d for d in dm.bindings.get(name, []) if d[0] == "assign"]
+    if len(dm.bindings.get(name, [])) != 1 or len(assigns) != 1:
+        return None
+    node = assigns[0][1]
+    val = getattr(node, "value", None)
+    if val is None:
+        return None
+    n = _table_len(val)
+    if n is None:
+        return None
+    for x in ast.walk(dm.tree):
+        if isinstance(x, ast.Call) and isinstance(x.func, ast.Attribute) and isinstance(x.func.value, ast.Name) and x.func.value.id == name and x.func.attr in ("append", "extend", "insert", "pop", "remove"):
+            return None
+        if isinstance(x, ast.AugAssign) and isinstance(x.target, ast.Name) and x.target.id == name:
+            return None
+    return dm, name, n
+
+
+def r_boundidx(repo, tier):
+    out = RuleOut(
+        "R-BOUNDIDX",
+        "a setup function that indexes a fixed-length register table of its env module directly with a field delivered by its spec "
+        "(`env.T[f]`, f a parameter that is never re-assigned nor range-tested in the function) is attached only to specs whose "
+        "field f is at most log2(len(T)) bits wide: every decodable value of the field is a valid index (else IndexError escapes "
+        "the disassembler, which only catches DecodeError/InstructionError)",
+    )
+    decls, _ = specs(repo)
+    byfunc = {}
+    for s in decls:
+        if s.model is not None:
+            byfunc.setdefault(s.func.key, []).append(s)
+    nsites = 0
+    for key, lst in sorted(byfunc.items()):
+        f = lst[0].func
+        params = set(f.params())
+        rebound = set()
+        tested = set()
+        for n in ast.walk(f.node):
+            if isinstance(n, ast.Name) and isinstance(n.ctx, ast.Store):
+                rebound.add(n.id)
+            elif isinstance(n, ast.AugAssign) and isinstance(n.target, ast.Name):
+                rebound.add(n.target.id)
+            elif isinstance(n, ast.Compare):
+                tested |= {x.id for x in ast.walk(n) if isinstance(x, ast.Name)}
+            elif isinstance(n, (ast.If, ast.IfExp, ast.While, ast.Assert)):
+                tested |= {x.id for x in ast.walk(n.test) if isinstance(x, ast.Name)}
+        handlers = set()
+        for n in ast.walk(f.node):
+            if isinstance(n, ast.Try):
+                for h in n.handlers:
+                    handlers |= {"*"} if h.type is None else {norm(e) for e in (h.type.elts if isinstance(h.type, ast.Tuple) else [h.type])}
+        for n in ast.walk(f.node):
+            if not (isinstance(n, ast.Subscript) and isinstance(n.slice, ast.Name) and isinstance(n.ctx, ast.Load)):
+                continue
+            p = n.slice.id
+            if p not in params or p in rebound:
+                continue
+            tab = _resolve_table(repo, f.mod, n.value)
+            if tab is None:
+                continue
+            dm, tname, tlen = tab
+            for s in lst:
+                ws = [d.width for d in s.model.fields() if d.sym == p and d.opt != "."]
+                if not ws or not isinstance(ws[0], int):
+                    continue
+                w = ws[0]
+                nsites += 1
+                ok = (1 << w) <= tlen
+                out.inst("%s::%s[%s]::%s" % (f.key, tname, p, s.raw), {"hook": f.dqual, "table": "%s.%s" % (dm.name, tname), "length": tlen, "field": p, "width": w, "spec": s.raw}, nontrivial=True)
+                if ok:
+                    continue
+                if p in tested or handlers & {"*", "Exception", "IndexError", "LookupError"}:
+                    out.undecide(f.file, f.dqual, "%s[%s] <- %s" % (tname, p, s.raw), "field is range-tested or the lookup error is handled in the function")
+                    continue
+                out.report(f.file, f.dqual, "%s[%s] <- @%s(%r)" % (tname, p, s.cls, s.raw), s.line, "field %s is %d bits wide (values 0..%d) and indexes %s.%s which has %d entries: values >= %d raise IndexError out of the disassembler" % (p, w, (1 << w) - 1, dm.name, tname, tlen, tlen))
+    out.stats["sites"] = nsites
+    out.floor(300, "field-indexed table lookups")
+    return out
